@@ -25,7 +25,8 @@ TimesFull(h) ==
         Well("hmscc", <<h, 30, 0, 7>>), Well("hmsc", <<h, 30, 0, 5>>),
         Well("hms", <<25, 0, 0>>), Well("hms", <<h, 61, 0>>), Well("hms60", <<h, 0, 0, 75>>),
         Ill("two-fields"), Ill("alpha"), Ill("tt-alpha"), Ill("tt-inf"), Ill("tt-huge"), Ill("tt-nan"), Ill("five-fields"), Ill("blank")}
-TimesFew(h) == {Absent, Well("hms", <<h, 5, 9>>), Well("hms60", <<h, 59, 59, 30>>), Ill("tt-alpha"), Ill("tt-inf")}
+TimesFew(h) == {Absent, Well("hms", <<h, 5, 9>>), Well("hms60", <<h, 59, 59, 30>>), Well("hmscc", <<h, 30, 0, 7>>), Well("hmsc", <<h, 30, 0, 5>>),
+                Ill("tt-alpha"), Ill("tt-inf")}
 DatesFull ==
        {Absent, Well("dby", <<3, 2, 15>>), Well("dby", <<15, 1, 1>>), Well("dby", <<29, 2, 99>>),
         Well("dbY", <<3, 2, 2015>>), Well("dbY", <<29, 2, 2016>>), Well("dbY", <<32, 1, 2015>>),
